@@ -120,6 +120,9 @@ func (e *Env) ptrTypes(full bool) []PtrType {
 		{"Text", T(Text), &Default{Explicit: true, Text: "dflt"}},
 		{"Data", T(Data), &Default{Explicit: true, Data: []byte{0xd0, 0x00, 0xd2}}},
 		{"Struct", RefTo(e.T), dl(Default{StructWords: []uint64{0x1122334455667788, 0x5A5A0000FFFF}, StructText: "dt"})},
+		// a second struct-typed pointer with a different default: in unions it
+		// shares its pointer slot with the first one
+		{"Struct2", RefTo(e.T), dl(Default{StructWords: []uint64{0x0807060504030201, 0x00A5A5A500000001}, StructText: "second"})},
 		{"Any", T(AnyPointer), nil},
 		{"LBool", ListOf(T(Bool)), dl(Default{Elems: []uint64{1, 0, 1, 1, 0, 0, 0, 0, 1}})},
 		{"LU8", ListOf(T(Uint8)), dl(Default{Elems: []uint64{1, 0xff, 0x5a}})},
